@@ -353,7 +353,7 @@ func (p7 *PKCS7) Decrypt(cert *Certificate, pk crypto.PrivateKey) ([]byte, error
 	if recipient.EncryptedKey == nil {
 		return nil, errors.New("pkcs7: no enveloped recipient for provided certificate")
 	}
-	if priv := pk.(*rsa.PrivateKey); priv != nil {
+	if priv, ok := pk.(*rsa.PrivateKey); ok && priv != nil {
 		var contentKey []byte
 		contentKey, err := rsa.DecryptPKCS1v15(rand.Reader, priv, recipient.EncryptedKey)
 		if err != nil {
@@ -376,7 +376,7 @@ func (p7 *PKCS7) DecryptSM2(cert *Certificate, pk crypto.PrivateKey, mode int) (
 		return nil, errors.New("pkcs7: no enveloped recipient for provided certificate")
 	}
 
-	if priv := pk.(*sm2.PrivateKey); priv != nil {
+	if priv, ok := pk.(*sm2.PrivateKey); ok && priv != nil {
 		var contentKey []byte
 		contentKey, err := sm2.Decrypt(priv, recipient.EncryptedKey, mode)
 		if err != nil {
@@ -480,6 +480,9 @@ func (eci encryptedContentInfo) decrypt(key []byte) ([]byte, error) {
 		return nil, errors.New("pkcs7: encryption algorithm parameters are malformed")
 	}
 	mode := cipher.NewCBCDecrypter(block, iv)
+	if len(cyphertext)%mode.BlockSize() != 0 {
+		return nil, errors.New("pkcs7: encrypted content is not a multiple of the block size")
+	}
 	plaintext := make([]byte, len(cyphertext))
 	mode.CryptBlocks(plaintext, cyphertext)
 	if plaintext, err = unpad(plaintext, mode.BlockSize()); err != nil {
@@ -523,6 +526,9 @@ func unpad(data []byte, blocklen int) ([]byte, error) {
 
 	// the last byte is the length of padding
 	padlen := int(data[len(data)-1])
+	if padlen == 0 || padlen > blocklen {
+		return nil, errors.New("invalid padding")
+	}
 
 	// check padding integrity, all bytes should be the same
 	pad := data[len(data)-padlen:]
